@@ -95,6 +95,29 @@ def base (s : String) : String := String.ofList (baseL s.toList)
 def dir (s : String) : String := String.ofList (dirL s.toList)
 def clean (s : String) : String := String.ofList (cleanL s.toList)
 
+/-- value of a hexadecimal digit (`net/url` `ishex` / `unhex`) -/
+def hexVal (c : UInt8) : Option UInt8 :=
+  if 48 ≤ c ∧ c ≤ 57 then some (c - 48)
+  else if 97 ≤ c ∧ c ≤ 102 then some (c - 97 + 10)
+  else if 65 ≤ c ∧ c ≤ 70 then some (c - 65 + 10)
+  else none
+
+/-- `net/url` `unescape(s, encodePathSegment)` on bytes: every `%XX` becomes the byte `XX`; a `%` not
+    followed by two hexadecimal digits is an error.  (In path mode '+' is left alone.) -/
+def unescBytes : List UInt8 → Option (List UInt8)
+  | [] => some []
+  | 37 :: a :: b :: rest =>
+    match hexVal a, hexVal b with
+    | some x, some y => (unescBytes rest).map fun r => (x * 16 + y) :: r
+    | _, _ => none
+  | 37 :: _ => none
+  | c :: rest => (unescBytes rest).map fun r => c :: r
+
+/-- `url.PathUnescape(s)`; `none` on a malformed escape (and on bytes that are not UTF-8, which JSON
+    strings cannot carry) -/
+def pathUnescape (s : String) : Option String :=
+  (unescBytes s.toUTF8.toList).bind fun bs => String.fromUTF8? (ByteArray.mk bs.toArray)
+
 /-- `strconv.Itoa` for naturals -/
 def itoa (n : Nat) : String := toString n
 
